@@ -4,7 +4,7 @@
 
 use flipdot::{Page, PageId};
 
-use crate::ctl::{self, Conversation, N_SYMBOLS};
+use crate::ctl::{self, Conversation, N_SYMBOLS, Session};
 use crate::refctl::{Op, Reply};
 use crate::refs::*;
 use crate::util::{Ctx, J, Outcome, Report, Rng, floor, fnv, run_sharded};
@@ -24,11 +24,12 @@ fn conv_json(c: &Conversation, ty: usize, pages: usize) -> J {
         ("script", J::Arr(c.script.iter().map(|s| J::u(*s)).collect())),
         ("conversation", J::Arr(c.log.iter().map(|(m, r)| J::s(format!("{} => {}", m.show(), r.show()))).collect())),
         ("result", J::s(c.out.show())),
+        ("earlier_calls_on_the_same_sign_object", J::Arr(c.prior_calls.iter().map(|p| J::s(p.clone())).collect())),
     ])
 }
 
 fn sig(c: &Conversation, ty: usize) -> String {
-    format!("{}|{}|{:04X}|{}", c.op.name(), TYPES[ty].name, c.own, c.log.iter().map(|(m, r)| format!("{}>{}", m.show(), r.show())).collect::<Vec<_>>().join(";"))
+    format!("{}|{}|{:04X}|{}|{}", c.op.name(), TYPES[ty].name, c.own, c.prior_calls.join("+"), c.log.iter().map(|(m, r)| format!("{}>{}", m.show(), r.show())).collect::<Vec<_>>().join(";"))
 }
 
 // ------------------------------------------------------------------------------------------------
@@ -296,8 +297,99 @@ fn monitor(c: &Conversation, ty: usize, n_pages: usize, invariants_mode: bool, r
     }
 }
 
-/// Depth-first enumeration of every reply script whose first symbol is `first`.
-fn dfs(setup: &Setup, op: &Op, pages: &[Page<'static>], first: u16, poll_bound: usize, invariants_mode: bool, rep: &mut Report) -> bool {
+// ------------------------------------------------------------------------------------------------
+// Calls on a `Sign` object that has already been used: canned earlier calls ("preludes")
+
+const SYM_ACK: u16 = 26;
+const SYM_NONE: u16 = 38;
+const SYM_BUS_ERROR: u16 = 43;
+
+/// An earlier call on the same `Sign`: every reply is the one that lets the operation proceed, except at the listed
+/// (position, occurrence) pairs.
+struct Prelude {
+    name: &'static str,
+    op: Op,
+    n_pages: usize,
+    overrides: &'static [(&'static str, usize, u16)],
+}
+
+const FOREIGN: u16 = N_STATES as u16;
+
+const PRELUDES: &[Prelude] = &[
+    Prelude { name: "send_pages ok (page loaded)", op: Op::SendPages, n_pages: 1, overrides: &[] },
+    Prelude { name: "send_pages ok, flip-style query unanswered", op: Op::SendPages, n_pages: 1, overrides: &[("flip_style_query", 0, SYM_NONE)] },
+    Prelude { name: "send_pages ok, flip-style query answered by another sign", op: Op::SendPages, n_pages: 1, overrides: &[("flip_style_query", 0, FOREIGN + S_SHOWING as u16)] },
+    Prelude { name: "send_pages ok, sign flips pages itself", op: Op::SendPages, n_pages: 1, overrides: &[("flip_style_query", 0, S_SHOWING as u16)] },
+    Prelude { name: "send_pages gave up after three failed transfers", op: Op::SendPages, n_pages: 1, overrides: &[("pixels_result_query", 0, S_PIX_FAIL as u16), ("pixels_result_query", 1, S_PIX_FAIL as u16), ("pixels_result_query", 2, S_PIX_FAIL as u16)] },
+    Prelude { name: "send_pages ok on the third attempt", op: Op::SendPages, n_pages: 1, overrides: &[("pixels_result_query", 0, S_PIX_FAIL as u16), ("pixels_result_query", 1, S_PIX_FAIL as u16)] },
+    Prelude { name: "send_pages, bus error at pixels-complete", op: Op::SendPages, n_pages: 1, overrides: &[("pixels_complete", 0, SYM_BUS_ERROR)] },
+    Prelude { name: "send_pages, bus error at the result query", op: Op::SendPages, n_pages: 1, overrides: &[("pixels_result_query", 0, SYM_BUS_ERROR)] },
+    Prelude { name: "send_pages, transfer request refused", op: Op::SendPages, n_pages: 1, overrides: &[("pixels_request_ack", 0, SYM_NONE)] },
+    Prelude { name: "configure ok", op: Op::Configure, n_pages: 0, overrides: &[] },
+    Prelude { name: "configure ok after a reset", op: Op::Configure, n_pages: 0, overrides: &[("reset_hello_1", 0, S_SHOWN as u16)] },
+    Prelude { name: "configure gave up after three failed transfers", op: Op::Configure, n_pages: 0, overrides: &[("config_result_query", 0, S_CFG_FAIL as u16), ("config_result_query", 1, S_CFG_FAIL as u16), ("config_result_query", 2, S_CFG_FAIL as u16)] },
+    Prelude { name: "configure, reset abandoned (bus error)", op: Op::Configure, n_pages: 0, overrides: &[("reset_hello_1", 0, S_LOADED as u16), ("reset_hello_2", 0, SYM_BUS_ERROR)] },
+    Prelude { name: "configure_if_needed skipped (sign ready)", op: Op::ConfigureIfNeeded, n_pages: 0, overrides: &[("if_needed_hello", 0, S_SHOWN as u16)] },
+    Prelude { name: "show_loaded_page ok", op: Op::Show, n_pages: 0, overrides: &[] },
+    Prelude { name: "show_loaded_page on a self-flipping sign", op: Op::Show, n_pages: 0, overrides: &[("switch_query", 0, S_SHOWING as u16)] },
+    Prelude { name: "show_loaded_page, unexpected state", op: Op::Show, n_pages: 0, overrides: &[("switch_query", 0, S_PIX_FAIL as u16)] },
+    Prelude { name: "load_next_page ok", op: Op::LoadNext, n_pages: 0, overrides: &[] },
+    Prelude { name: "load_next_page, request unanswered", op: Op::LoadNext, n_pages: 0, overrides: &[("switch_request_ack", 0, SYM_NONE)] },
+    Prelude { name: "shut_down", op: Op::ShutDown, n_pages: 0, overrides: &[] },
+];
+
+/// The reply that lets `op` proceed at `pos` (its `occ`-th visit).
+fn proceed(op: &Op, pos: &str, occ: usize) -> u16 {
+    match pos {
+        "if_needed_hello" | "reset_hello_1" | "reset_hello_3" => S_UNCONF as u16,
+        "reset_start_ack" => SYM_ACK + O_START_RESET as u16,
+        "reset_hello_2" => S_READY_RESET as u16,
+        "reset_finish_ack" => SYM_ACK + O_FINISH_RESET as u16,
+        "config_request_ack" => SYM_ACK + O_RECV_CFG as u16,
+        "pixels_request_ack" => SYM_ACK + O_RECV_PIX as u16,
+        "config_result_query" => S_CFG_RECV as u16,
+        "pixels_result_query" => S_PIX_RECV as u16,
+        "flip_style_query" => S_LOADED as u16,
+        "switch_query" => match (op, occ) {
+            (Op::Show, 0) => S_LOADED as u16,
+            (Op::Show, _) => S_SHOWN as u16,
+            (_, 0) => S_SHOWN as u16,
+            (_, _) => S_LOADED as u16,
+        },
+        "switch_request_ack" => SYM_ACK + if *op == Op::Show { O_SHOW } else { O_LOAD_NEXT } as u16,
+        _ => SYM_NONE,
+    }
+}
+
+fn prelude_policy(p: &'static Prelude) -> Box<dyn FnMut(usize, &'static str) -> u16> {
+    let mut visits: Vec<(&'static str, usize)> = vec![];
+    Box::new(move |_depth, pos| {
+        let occ = match visits.iter_mut().find(|(n, _)| *n == pos) {
+            Some((_, k)) => {
+                *k += 1;
+                *k - 1
+            }
+            None => {
+                visits.push((pos, 1));
+                0
+            }
+        };
+        p.overrides.iter().find(|(n, o, _)| *n == pos && *o == occ).map(|(_, _, s)| *s).unwrap_or_else(|| proceed(&p.op, pos, occ))
+    })
+}
+
+/// A fresh session, with the prelude (if any) already performed on its `Sign`.
+fn session_after(setup: &Setup, prelude: Option<(&'static Prelude, &[Page<'static>])>) -> (Session, Option<Conversation>) {
+    let mut sess = Session::new(setup.own, setup.foreign, setup.ty);
+    let pc = prelude.map(|(p, pages)| sess.call(&p.op, pages, vec![], 400, prelude_policy(p), false));
+    (sess, pc)
+}
+
+/// Depth-first enumeration of every reply script whose first symbol is `first`; with a prelude, every conversation is
+/// held with a `Sign` object that has performed that earlier call.
+fn dfs(setup: &Setup, op: &Op, pages: &[Page<'static>], first: u16, poll_bound: usize, invariants_mode: bool, prelude: Option<&'static Prelude>, rep: &mut Report) -> bool {
+    let prelude_pages = prelude.map(|p| mk_pages(setup.ty, p.n_pages, &mut Rng::new(77)));
+    let mut prelude_monitored = false;
     // generous cap on conversation length: every protocol conversation is shorter than this
     let chunk_msgs: usize = pages.iter().map(|p| p.as_bytes().len().div_ceil(16)).sum::<usize>() + 1;
     let max_messages = match op {
@@ -312,8 +404,18 @@ fn dfs(setup: &Setup, op: &Op, pages: &[Page<'static>], first: u16, poll_bound: 
     loop {
         // C10 ends a conversation where it leaves the protocol (the divergence is the verdict); C11 must not lean on the
         // reference machine, so it lets the conversation run and relies on the conversation budget below
-        let c = ctl::converse(op, setup.own, setup.foreign, setup.ty, pages, script.clone(), max_messages, Box::new(|_| 0), !invariants_mode);
+        let (mut sess, pc) = session_after(setup, prelude.map(|p| (p, prelude_pages.as_deref().unwrap())));
+        if let (Some(pc), false) = (&pc, prelude_monitored) {
+            // the earlier call is itself a conversation with a fresh sign: monitored once per subtree
+            monitor(pc, setup.ty, prelude.map(|p| p.n_pages).unwrap_or(0), invariants_mode, rep);
+            rep.seen("preludes_performed", fnv(format!("{}|{}", prelude.unwrap().name, pc.out.show()).as_bytes()));
+            prelude_monitored = true;
+        }
+        let c = sess.call(op, pages, script.clone(), max_messages, Box::new(|_, _| 0), !invariants_mode);
         monitor(&c, setup.ty, pages.len(), invariants_mode, rep);
+        if prelude.is_some() {
+            rep.count("conversations_with_a_reused_sign_object");
+        }
         conversations += 1;
         if conversations > CONVERSATION_BUDGET {
             rep.count("dfs_subtrees_cut_by_budget");
@@ -370,9 +472,24 @@ fn random_conversation(ctx: &Ctx, rng: &mut Rng, invariants_mode: bool, rep: &mu
     let mut pr = Rng::new(seed);
     // random scripts biased towards replies that keep the conversation going
     let good: Vec<u16> = vec![S_UNCONF as u16, S_READY_RESET as u16, S_CFG_RECV as u16, S_CFG_FAIL as u16, S_PIX_RECV as u16, S_PIX_FAIL as u16, S_LOADED as u16, S_SHOWN as u16, S_LOAD_PROG as u16, S_SHOW_PROG as u16, S_SHOWING as u16, 26, 27, 28, 29, 30, 31, 38];
-    let pick = Box::new(move |_d: usize| if pr.chance(4, 5) { *pr.pick(&good) } else { pr.below(N_SYMBOLS as u64) as u16 });
-    let c = ctl::converse(&op, own, foreign, ty, &pages, vec![], 400, pick, false);
+    let good_for_pick = good.clone();
+    let pick = Box::new(move |_d: usize, _p: &'static str| if pr.chance(4, 5) { *pr.pick(&good_for_pick) } else { pr.below(N_SYMBOLS as u64) as u16 });
     let _ = ctx;
+    // half of the random conversations are held with a Sign object that has already made one to three random calls
+    let mut sess = Session::new(own, foreign, ty);
+    if rng.chance(1, 2) {
+        for _ in 0..1 + rng.usize(3) {
+            let op0 = OPS_ALL[rng.usize(6)].clone();
+            let pages0 = if op0 == Op::SendPages { mk_pages(ty, rng.usize(3), rng) } else { vec![] };
+            let mut pr0 = Rng::new(rng.next());
+            let good0 = good.clone();
+            let pick0 = Box::new(move |_d: usize, _p: &'static str| if pr0.chance(9, 10) { *pr0.pick(&good0) } else { pr0.below(N_SYMBOLS as u64) as u16 });
+            let c0 = sess.call(&op0, &pages0, vec![], 400, pick0, false);
+            monitor(&c0, ty, pages0.len(), invariants_mode, rep);
+            rep.count("random_calls_on_a_reused_sign_object");
+        }
+    }
+    let c = sess.call(&op, &pages, vec![], 400, pick, false);
     monitor(&c, ty, pages.len(), invariants_mode, rep);
     rep.count("random_conversations");
 }
@@ -403,6 +520,7 @@ pub fn run(ctx: &Ctx, invariants_mode: bool) -> Outcome {
         op: Op,
         n_pages: usize,
         first: u16,
+        prelude: Option<&'static Prelude>,
     }
     let mut jobs = vec![];
     for (si, s) in setups.iter().enumerate() {
@@ -415,11 +533,24 @@ pub fn run(ctx: &Ctx, invariants_mode: bool) -> Outcome {
             };
             for np in page_counts {
                 for first in 0..N_SYMBOLS as u16 {
-                    jobs.push(Job { setup: si, op: op.clone(), n_pages: np, first });
+                    jobs.push(Job { setup: si, op: op.clone(), n_pages: np, first, prelude: None });
                 }
             }
         }
     }
+    // the same enumeration on Sign objects that have been used before (quick: the 3-chunk type; thorough: two types)
+    let fresh_jobs = jobs.len();
+    let reuse_setups: Vec<usize> = if ctx.quick() { vec![0] } else { vec![20, 9] };
+    for si in reuse_setups.iter() {
+        for p in PRELUDES.iter() {
+            for op in OPS_ALL.iter() {
+                for first in 0..N_SYMBOLS as u16 {
+                    jobs.push(Job { setup: *si, op: op.clone(), n_pages: if *op == Op::SendPages { 1 } else { 0 }, first, prelude: Some(p) });
+                }
+            }
+        }
+    }
+    let _ = fresh_jobs;
     let n_random = if invariants_mode { ctx.size(100_000, 10_000_000) } else { ctx.size(20_000, 1_000_000) };
     let rand_shards = 32usize;
     let nj = jobs.len();
@@ -429,7 +560,7 @@ pub fn run(ctx: &Ctx, invariants_mode: bool) -> Outcome {
             let s = &setups[j.setup];
             let mut rng = ctx.rng("pages", (j.setup * 16 + j.n_pages) as u64);
             let pages = mk_pages(s.ty, j.n_pages, &mut rng);
-            if dfs(s, &j.op, &pages, j.first, poll_bound, invariants_mode, rep) {
+            if dfs(s, &j.op, &pages, j.first, poll_bound, invariants_mode, j.prelude, rep) {
                 rep.count("dfs_subtrees_completed");
             }
         } else {
@@ -444,6 +575,7 @@ pub fn run(ctx: &Ctx, invariants_mode: bool) -> Outcome {
     let cells = report.set_len("position_x_symbol");
     let mut floors = vec![
         floor("every DFS subtree enumerated to its end", report.get("dfs_subtrees_completed") == nj as u64, report.get("dfs_subtrees_completed")),
+        floor("every canned earlier call performed, then every operation enumerated on the same Sign object", report.set_len("preludes_performed") >= PRELUDES.len() as u64 && report.get("conversations_with_a_reused_sign_object") > 100_000, format!("{} preludes, {} conversations", report.set_len("preludes_performed"), report.get("conversations_with_a_reused_sign_object"))),
         floor("every reply symbol offered at every protocol position", n_positions >= 16 && cells == n_positions * N_SYMBOLS as u64, format!("{} cells over {} positions", cells, n_positions)),
         floor("ok / protocol error / bus error observed for every operation", (0..6u64).all(|o| (0..3u64).all(|k| report.sets.get("op_x_outcome").map(|s| s.contains(&(o * 4 + k))).unwrap_or(false))), report.set_len("op_x_outcome")),
     ];
